@@ -275,6 +275,24 @@ func c09Doc(c *explore.Ctx, s *explore.SubStats, d kitDoc) {
 		}
 		c09Links(c, s, d, schema, d2, mode)
 	}
+	// documents are the caller's: validated again after the caller replaced every fragment
+	// definition by an equal fresh one, and validated again against another instance of the
+	// schema (a reload) — the links must follow
+	{
+		fresh, _ := parser.ParseQuery(&ast.Source{Name: "q.graphql", Input: d.Doc})
+		if len(fresh.Fragments) == len(doc.Fragments) && len(doc.Fragments) > 0 {
+			doc.Fragments = fresh.Fragments
+			r := guarded(c02DocBudget, 5000, func() { validator.Validate(schema, doc) })
+			if !r.Panicked {
+				c09Links(c, s, d, schema, doc, "second validation after the fragment definitions were replaced")
+			}
+		}
+		alt := kitAltSchema(d.Schema)
+		r := guarded(c02DocBudget, 5000, func() { validator.Validate(alt, doc) })
+		if !r.Panicked {
+			c09Links(c, s, d, alt, doc, "second validation against another instance of the schema")
+		}
+	}
 	s.Outcome("linked")
 	s.Sample(func() any { return d })
 }
